@@ -80,5 +80,11 @@ def run(ctx, tier):
                 ctx.report('C15.R2', where, 'episode left open', 'after contributing the filter is still excluding: the '
                            'clean-up would be contributed again')
             ctx.sample({'case': tag, 'prefix': kinds})
+    # "no print is active" after an end event is a statement about the event machine: C11.R1 / R3 are premises here
+    from . import rules_c11
+    ctx.rule('C11.R1', 'C11: event machine - started => active; done / failed / cancelling / cancelled / error => inactive, whatever the filter state', floor=20)
+    ctx.rule('C11.R3', 'C11: the active-print flag is written only by __init__, initialize and on_event', floor=3)
+    rules_c11.event_rule(ctx, make_interp(ctx.model))
+    rules_c11.writers_rule(ctx)
     ctx.assume('the composition of the exit sequence itself is decided by C03/C06')
     ctx.assume('OctoPrint calls the script hook before it fires the print-done event (ordering is outside the repository)')
